@@ -122,9 +122,9 @@ func cmdCheck(args []string) {
 		}
 	}
 	start := time.Now()
-	timeout := 60
+	timeout := 90
 	if *tier == "thorough" {
-		timeout = 180
+		timeout = 240
 	}
 	id := *prop
 	outDir := filepath.Join(*verifDir, "out", "vc", id)
